@@ -838,6 +838,8 @@ func (vm *vm) handleThrow(arg interface{}) *Exception {
 			// uncatchable (interrupt, stack overflow): no script code may run, including iterator.return()
 			vm.dropStacks(tf.iterLen, tf.refLen)
 		}
+		// closing the iterators may have run script code that grew (and reallocated) the try stack
+		tf = &vm.tryStack[len(vm.tryStack)-1]
 
 		if tf.catchPos == tryPanicMarker {
 			break
